@@ -275,7 +275,7 @@ func (m *Model) createOrAddMode(mode *traits.ElectricMode) (*traits.ElectricMode
 
 	msg, err := m.modes.Add(mode.Id, mode, resource.WithGenIDIfAbsent(), resource.WithIDCallback(func(id string) {
 		mode.Id = id
-	}))
+	}), resource.WithMoreWritablePaths("id")) // (the id is the model's to write, whatever writable fields were configured)
 	if msg != nil {
 		mode = msg.(*traits.ElectricMode)
 	}
@@ -341,7 +341,7 @@ func (m *Model) updateMode(mode *traits.ElectricMode, opts ...resource.WriteOpti
 
 	// the id is part of every write, whatever the update mask says: a mode created by this call (create-if-absent)
 	// from the masked fields alone would be filed under its key with an empty Id of its own
-	opts = append(opts[:len(opts):len(opts)], resource.WithMoreUpdatePaths("id"))
+	opts = append(opts[:len(opts):len(opts)], resource.WithMoreUpdatePaths("id"), resource.WithMoreWritablePaths("id"))
 	msg, err := m.modes.Update(mode.Id, mode, opts...)
 	if err != nil {
 		return nil, err
